@@ -214,3 +214,14 @@ fn track_waiting_on_a_removed_clock_reports_a_valid_state() {
 	callbacks(&mut m, 4);
 	assert_eq!(t.state(), TrackPlaybackState::Playing);
 }
+
+
+// C19 (fixed in 4f85308): from_ticks_f64 with a negative amount produced a negative fraction
+#[test]
+fn from_ticks_f64_negative_keeps_fraction_in_unit_interval() {
+	use kira::clock::{ClockSpeed, ClockTime};
+	let mut manager = kira::AudioManager::<kira::backend::mock::MockBackend>::new(Default::default()).unwrap();
+	let clock = manager.add_clock(ClockSpeed::TicksPerSecond(1.0)).unwrap();
+	let t = ClockTime::from_ticks_f64(&clock, -0.25);
+	assert!(t.fraction >= 0.0 && t.fraction < 1.0, "fraction = {}", t.fraction);
+}
